@@ -126,6 +126,17 @@ def server(variant='fs'):
     return s
 
 
+def child_limits(cpu_s=15, fsize=1 << 28):
+    """preexec_fn for direct runs of a compiler or driver built from the tree under test: a changed compiler may loop or print
+    without end; bounded CPU time (SIGXCPU) and file size (SIGXFSZ) keep such a run a finding instead of a resource problem."""
+    def f():
+        import resource
+        resource.setrlimit(resource.RLIMIT_CPU, (cpu_s, cpu_s + 1))
+        resource.setrlimit(resource.RLIMIT_FSIZE, (fsize, fsize))
+        resource.setrlimit(resource.RLIMIT_CORE, (0, 0))
+    return f
+
+
 def nworkers():
     return int(os.environ.get('VERIF_JOBS', '0')) or min(16, os.cpu_count() or 1)
 
